@@ -63,6 +63,22 @@ def _run_one(i):
     t0 = time.time()
     from . import libmodels as lm
     del lm.LIB_PRE_UNMET[:]
+    import signal
+
+    class _ObTimeout(Exception):
+        pass
+
+    def _vt(signum, frame):
+        raise _ObTimeout()
+
+    # watchdog on the CPU time of this obligation (ITIMER_VIRTUAL: independent of the wall-clock alarms used inside);
+    # an obligation that exhausts it is UNDECIDED, never a verdict and never a hang of the check
+    cpu_budget = float(os.environ.get("PYVC_OB_CPU_S", "3600" if be.thorough() else "600"))
+    try:
+        signal.signal(signal.SIGVTALRM, _vt)
+        signal.setitimer(signal.ITIMER_VIRTUAL, cpu_budget)
+    except ValueError:
+        pass
     try:
         v = ob.run()
         if not isinstance(v, be.Verdict):
@@ -73,6 +89,8 @@ def _run_one(i):
             worst = "refuted" if any(s_ == "refuted" for s_, _ in lm.LIB_PRE_UNMET) else "unknown"
             text = "; ".join(sorted({t_ for _, t_ in lm.LIB_PRE_UNMET}))
             v = be.Verdict(be.REFUTED if worst == "refuted" else be.UNKNOWN, "PRE", witness=({} if worst == "refuted" else None), detail="library precondition not established on a path of the code under contract: " + text, seconds=time.time() - t0)
+    except (_ObTimeout, be._StepTimeout):
+        v = be.Verdict(be.UNKNOWN, "BUDGET", detail=f"budget exhausted ({cpu_budget:.0f} s CPU per obligation / CAS rewrite limit): undecided", seconds=time.time() - t0)
     except sx.OutOfSubset as e:
         v = be.Verdict(be.UNKNOWN, "SYMEX", detail=f"OUT-OF-SUBSET: {e}", seconds=time.time() - t0)
         v.out_of_subset = True
@@ -81,6 +99,10 @@ def _run_one(i):
         v.out_of_subset = True
     except Exception as e:  # noqa: BLE001 - checker error, never a violation
         v = be.Verdict(ERROR, "ENGINE", detail=f"{type(e).__name__}: {e}\n" + "".join(traceback.format_exc().splitlines(True)[-6:]), seconds=time.time() - t0)
+    try:
+        signal.setitimer(signal.ITIMER_VIRTUAL, 0)
+    except ValueError:
+        pass
     v.seconds = time.time() - t0
     models = sorted(getattr(v, "models", []) or [])
     return i, v.status, v.backend, v.witness, v.detail, v.seconds, v.stats, getattr(v, "out_of_subset", False), models
